@@ -4,7 +4,7 @@ use serde_json::{Map, json};
 
 use crate::{
     container::Container,
-    json::{json_read, json_write},
+    json::{json_read, json_read::JsonReq, json_write},
     object::Object,
     path::Path,
     pointer::{self, Pointer},
@@ -127,6 +127,12 @@ impl Thread {
             }
         }
 
+        if thread.callstack.is_empty() {
+            return Err(StoryError::BadJson(
+                "A saved thread must have at least one call stack element".to_owned(),
+            ));
+        }
+
         if let Some(prev_content_obj_path) =
             j_obj.get("previousContentObject").and_then(|p| p.as_str())
         {
@@ -171,12 +177,12 @@ impl Thread {
         thread.insert("callstack".to_owned(), serde_json::Value::Array(cs_array));
         thread.insert("threadIndex".to_owned(), json!(self.thread_index));
 
-        if !self.previous_pointer.is_null() {
+        if !self.previous_pointer.is_null()
+            && let Some(previous_object) = self.previous_pointer.resolve()
+        {
             thread.insert(
                 "previousContentObject".to_owned(),
-                json!(
-                    Object::get_path(self.previous_pointer.resolve().unwrap().as_ref()).to_string()
-                ),
+                json!(Object::get_path(previous_object.as_ref()).to_string()),
             );
         }
 
@@ -425,17 +431,26 @@ impl CallStack {
         main_content_container: &Rc<Container>,
         j_obj: &Map<String, serde_json::Value>,
     ) -> Result<(), StoryError> {
-        self.threads.clear();
+        // Parse everything before touching the call stack, and insist on what
+        // the rest of the engine takes for granted: at least one thread, and
+        // at least one element in every thread.
+        let mut threads = Vec::new();
 
-        let j_threads = j_obj.get("threads").unwrap();
-
-        for j_thread_tok in j_threads.as_array().unwrap().iter() {
-            let j_thread_obj = j_thread_tok.as_object().unwrap();
-            let thread = Thread::from_json(main_content_container, j_thread_obj)?;
-            self.threads.push(thread);
+        for j_thread_tok in json_read::required(j_obj, "threads")?.req_array()?.iter() {
+            let thread = Thread::from_json(main_content_container, j_thread_tok.req_object()?)?;
+            threads.push(thread);
         }
 
-        self.thread_counter = j_obj.get("threadCounter").unwrap().as_i64().unwrap() as usize;
+        if threads.is_empty() {
+            return Err(StoryError::BadJson(
+                "A saved call stack must have at least one thread".to_owned(),
+            ));
+        }
+
+        let thread_counter = json_read::required(j_obj, "threadCounter")?.req_u64()? as usize;
+
+        self.threads = threads;
+        self.thread_counter = thread_counter;
         self.start_of_root = Pointer::start_of(main_content_container.clone()).clone();
 
         Ok(())
